@@ -26,6 +26,7 @@ import (
 	"github.com/google/martian/v3/zzverif/vrt"
 
 	"verif/checks/pworld"
+	"verif/checks/simconf"
 	"verif/lib"
 )
 
@@ -606,6 +607,20 @@ func main() {
 		return
 	}
 	rep := lib.NewReport("C04", "model_checking")
+	// the TCP model the scenarios run on is validated against the kernel on every run (engine self-test)
+	confDepth := 2
+	if tier == "thorough" {
+		confDepth = 3
+	}
+	if n, bad, ok := simconf.Run(confDepth); ok {
+		rep.Coverage["simnet_conformance"] = map[string]interface{}{"scripts_replayed_on_loopback_tcp": n, "disagreements": len(bad), "depth": confDepth}
+		if len(bad) > 0 {
+			fmt.Fprintln(os.Stderr, "ENGINE ERROR: simnet disagrees with loopback TCP:", bad[0])
+			os.Exit(2)
+		}
+	} else {
+		rep.Coverage["simnet_conformance"] = "skipped: no loopback TCP available"
+	}
 	files, errs, outs := lib.RunShards(16, lib.Root+"/.build/c04/shards")
 	minBound := 99
 	for i, f := range files {
